@@ -529,11 +529,11 @@ def gen_object_cases(tier, rng):
     n_rand = 600 if tier == "thorough" else 90
     for k in range(n_rand):
         src, declared, mix = script_objects(rng, rng.choice([2, 3, 4, 6, 8, 10]), blocks=(k % 4 != 0))
-        cases.append({"src": src, "cat": "in", "kind": "in:objects:random", "declared": declared, "rebind_mixed": mix, "nocompile": tier != "thorough" and k % 4 != 1,
+        cases.append({"src": src, "cat": "in", "kind": "in:objects:random", "declared": declared, "rebind_mixed": mix, "nocompile": (k % 2 == 0) if tier == "thorough" else (k % 4 != 1),
                       "meta": {"family": "objects", "k": k}})
     for k, seq in enumerate(resolution_sequences(tier, rng)):
         src, declared, mix = script_resolution(seq, with_fn=(k % 3 == 0))
-        cases.append({"src": src, "cat": "in", "kind": "in:objects:resolution", "declared": declared, "rebind_mixed": mix, "nocompile": tier != "thorough" and k % 8 != 0,
+        cases.append({"src": src, "cat": "in", "kind": "in:objects:resolution", "declared": declared, "rebind_mixed": mix, "nocompile": (k % 4 != 0) if tier == "thorough" else (k % 8 != 0),
                       "meta": {"family": "resolution", "seq": seq}})
     return cases
 
